@@ -547,7 +547,7 @@ class CFGrid2DTopology(CFGridTopology):
         ], axis=-1)
 
         # Set nan bounds for all cells that have any `nan` in its bounds.
-        cells_with_nans = numpy.isnan(bounds).any(axis=2)
+        cells_with_nans = numpy.isnan(bounds).any(axis=2) | nan_coordinates
         bounds[cells_with_nans] = numpy.nan
 
         data_array = xarray.DataArray(
